@@ -26,6 +26,7 @@ type ClientTransport struct {
 
 	callbacks *transport.Callbacks
 	pollExit  chan any
+	pollDone  chan struct{}
 	once      sync.Once
 }
 
@@ -43,6 +44,7 @@ func NewClientTransport(
 		httpClient:      httpClient,
 		callbacks:       callbacks,
 		pollExit:        make(chan any),
+		pollDone:        make(chan struct{}),
 	}
 }
 
@@ -87,6 +89,8 @@ func (t *ClientTransport) Handshake() (hr *parser.HandshakeResponse, err error) 
 }
 
 func (t *ClientTransport) Run() {
+	defer close(t.pollDone)
+
 	if t.initialPacket != nil {
 		t.callbacks.OnPacket(t.initialPacket)
 		// Set to nil for garbage collection.
@@ -216,6 +220,12 @@ func (t *ClientTransport) Discard() {
 	t.once.Do(func() {
 		close(t.pollExit)
 	})
+}
+
+// Done returns a channel that is closed when polling has ended: the response
+// to the last poll request is in, and its packets have been handed over.
+func (t *ClientTransport) Done() <-chan struct{} {
+	return t.pollDone
 }
 
 func (t *ClientTransport) close(err error) {
